@@ -119,8 +119,9 @@ def _consuming_blocks(f, l):
 
 
 def merge_linear(fx):
+    import views
     obs = []
-    f = fx.fn(MERGE)
+    f = views.view(fx, MERGE, depth=4) if fx.fn(MERGE) is not None else None
     if f is None:
         return [anchor_ob("R-OWN", MERGE)]
     cfg = cfg_of(f)
@@ -159,7 +160,7 @@ def merge_linear(fx):
                               nm, site.bb, where, ok),
                           None if ok else dict(taken="bb%d" % site.bb, consumed_in=sorted(cons), must_reach=targets)))
             n += 1
-    if n < 3:
+    if n < 1:
         obs.append(anchor_ob("R-OWN", "extent values taken in merge_extents (found %d)" % n))
     # (c) merged extents begin/end at input boundaries
     k = 0
@@ -181,11 +182,34 @@ def merge_linear(fx):
                                   "%s:%d" % (s["span"]["file"], s["span"]["line"]), MERGE,
                                   "merged extent's `%s` %s" % (fname, why), None if ok else dict(field=fname)))
                 k += 1
+            # in-place growth of the pending extent: `last.end = next.end`
+            lp = [e for e in (s["lhs"].get("p") or []) if e != "deref"]
+            if lp and isinstance(lp[-1], dict) and lp[-1].get("adt") == EXTENT and lp[-1].get("n") in ("start", "end") \
+                    and rv["k"] == "use":
+                fname = lp[-1]["n"]
+                l = op_local(rv["op"])
+                pl_ = op_place(rv["op"])
+                src = ("other", "const")
+                if pl_ is not None:
+                    named = [e for e in pl_.get("p", []) if isinstance(e, dict) and "f" in e]
+                    if named:
+                        src = ("field", pl_["l"], named[-1].get("n"), named[-1].get("adt"))
+                    elif l is not None:
+                        src = _shallow_source(f, l)
+                ok = src[0] == "field" and src[2] == fname and (len(src) < 4 or src[3] in (EXTENT, None))
+                why = ("copies the `%s` of an input extent" % fname) if ok else "is computed from %s" % (src,)
+                obs.append(Ob("R-TABLE", mkkey("R-TABLE", MERGE, "merged." + fname, k, "input-boundary"), ok,
+                              "%s:%d" % (s["span"]["file"], s["span"]["line"]), MERGE,
+                              "merged extent's `%s` %s" % (fname, why), None if ok else dict(field=fname)))
+                k += 1
     if k == 0:
-        obs.append(anchor_ob("R-TABLE", "merge_extents builds a merged Extent"))
+        obs.append(anchor_ob("R-TABLE", "merge_extents builds or grows a merged Extent"))
     # (d) the pending extent is pushed when the input is exhausted
+    # a pending slot: an Option<Extent> into which the loop *stores* an extent (`prev = Some(e)`), as opposed to
+    # the iterator's own `next()` result
     opt_locals = [i for i, lc in enumerate(f.locals) if lc["ty"].startswith("core::option::Option<libfs::Extent")
-                  and any(site.bb in body for site, w in du.defs.get(i, []))]
+                  and any(site.bb in body and not site.is_term and site.node["rv"]["k"] == "agg"
+                          and site.node["rv"].get("variant") == "Some" for site, w in du.defs.get(i, []))]
     exits = sorted(set(s_ for b_ in body for s_ in cfg.succ[b_] if s_ not in body))
     push_blocks = []
     for bi, t in q.calls_to(f, PUSH):
@@ -209,6 +233,11 @@ def merge_linear(fx):
                         none_edges.append((site.bb, explicit.get(0, t["otherwise"])))
     r = cfg.reach(exits, blocked=push_blocks, blocked_edges=none_edges)
     leak = [x for x in cfg.returns if x in r]
+    if not opt_locals:
+        # no pending slot: the extent being grown lives in the output vector already (`merged.last_mut()`)
+        obs.append(Ob("R-OWN", mkkey("R-OWN", MERGE, "pending extent", 0, "flushed"), True, f.loc(), MERGE,
+                      "no extent is held back outside the result vector (nothing to flush when the input ends)"))
+        return obs
     okd = bool(opt_locals) and bool(push_blocks) and not leak
     obs.append(Ob("R-OWN", mkkey("R-OWN", MERGE, "pending extent", 0, "flushed"), okd, f.loc(), MERGE,
                   "the extent still pending when the input ends is pushed to the result (skipped only when nothing is pending): %s" % okd,
